@@ -199,3 +199,146 @@ Theorem C02_const_rem_defective_refuted :
   a mod d = 5.
 Proof. exact const_rem_single_unshifted_defective_refuted. Qed.
 Print Assumptions C02_const_rem_defective_refuted.
+
+(** ** num-modular's reciprocal division itself (as-is models of barrett.rs in Int/DivNumModular.v, Moller-Granlund
+       Algorithms 4, 5, 6 with the wrapping arithmetic of the source) - every word size w > 0.  With these the
+       contracts above are no longer assumptions about the external crate. *)
+From Dashu Require Import Int.DivNumModular Int.DivNumModularProofs Int.DivSrcInst Int.DivSrcInstProofs.
+
+(** invert_word: the stored reciprocal is floor((B^2-1)/d) - B, and the debug assertion holds *)
+Theorem C02_nm_invert_word : forall w, 0 < w -> forall d, norm1 w d ->
+  let m := nm_invert_word w d in
+  m = (B w * B w - 1) / d - B w /\ 0 <= m < B w /\ nm_invert_word_checks w d = true /\
+  (exists k, (m + B w) * d = B w * B w - k /\ 1 <= k <= d).
+Proof. exact invert_word_spec. Qed.
+Print Assumptions C02_nm_invert_word.
+
+(** invert_double_word (Algorithm 6): floor((B^3-1)/d) - B, no `v -= 1` underflows *)
+Theorem C02_nm_invert_double_word : forall w, 0 < w -> forall d, norm2 w d ->
+  let v := nm_invert_double_word w d in
+  0 <= v < B w /\ (exists k, (v + B w) * d = B w * B w * B w - k /\ 1 <= k <= d) /\
+  v = (B w * B w * B w - 1) / d - B w /\ nm_invert_double_word_checks w d = true.
+Proof. exact invert_double_word_spec. Qed.
+Print Assumptions C02_nm_invert_double_word.
+
+(** div_rem_2by1 (Algorithm 4) is exact division; its debug_assert!(a_hi < divisor) and its checked
+    `+`, `q += 1` cannot fire *)
+Theorem C02_nm_div_rem_2by1 : forall w, 0 < w -> forall d a, norm1 w d -> 0 <= a < d * B w ->
+  nm_div_rem_2by1 w (nm_2by1_new w d) a = (a / d, a mod d) /\ nm_div_rem_2by1_checks w (nm_2by1_new w d) a = true.
+Proof. exact nm_div_rem_2by1_correct. Qed.
+Print Assumptions C02_nm_div_rem_2by1.
+
+(** div_rem_3by2 (Algorithm 5) *)
+Theorem C02_nm_div_rem_3by2 : forall w, 0 < w -> forall d lo hi, norm2 w d -> 0 <= lo < B w -> 0 <= hi < d ->
+  nm_div_rem_3by2 w (nm_3by2_new w d) lo hi = ((lo + B w * hi) / d, (lo + B w * hi) mod d) /\
+  nm_div_rem_3by2_checks w (nm_3by2_new w d) lo hi = true.
+Proof. exact nm_div_rem_3by2_correct. Qed.
+Print Assumptions C02_nm_div_rem_3by2.
+
+Theorem C02_nm_div_rem_4by2 : forall w, 0 < w -> forall d lo hi, norm2 w d -> 0 <= lo < B w * B w -> 0 <= hi < d ->
+  nm_div_rem_4by2 w (nm_3by2_new w d) lo hi = ((lo + B w * B w * hi) / d, (lo + B w * B w * hi) mod d).
+Proof. exact nm_div_rem_4by2_correct. Qed.
+Print Assumptions C02_nm_div_rem_4by2.
+
+(** the five contracts hold for the as-is models *)
+Theorem C02_nm_contracts : forall w, 0 < w ->
+  contract_1by1 w (nm1by1 w) /\ contract_2by1 w (nm2by1 w) /\ contract_2by2 w (nm2by2 w) /\
+  contract_3by2 w (nm3by2 w) /\ contract_4by2 w (nm4by2 w).
+Proof.
+  intros w Hw.
+  exact (conj (nm1by1_contract w) (conj (nm2by1_contract w Hw) (conj (nm2by2_contract w)
+        (conj (nm3by2_contract w Hw) (nm4by2_contract w Hw))))).
+Qed.
+Print Assumptions C02_nm_contracts.
+
+(** division of two magnitudes with num-modular transcribed, any word size; only the multiplier is a contract *)
+Theorem C02_nm_repr_div_rem : forall w, 0 < w -> forall mul_sub, contract_mul_sub w mul_sub -> forall T, (2 <= T)%nat ->
+  forall a b, 0 <= a -> 0 < b ->
+  repr_div_rem w (nm2by1 w) (nm3by2 w) (nm4by2 w) mul_sub T a b = Ok (a / b, a mod b) /\
+  repr_rem w (nm1by1 w) (nm2by1 w) (nm2by2 w) (nm3by2 w) (nm4by2 w) mul_sub T a b = Ok (a mod b) /\
+  const_div_rem w (nm2by1 w) (nm3by2 w) (nm4by2 w) mul_sub T a b = Ok (a / b, a mod b) /\
+  const_rem w (nm1by1 w) (nm2by1 w) (nm2by2 w) (nm3by2 w) (nm4by2 w) mul_sub T a b = Ok (a mod b).
+Proof.
+  intros w Hw ms Hms T HT a b Ha Hb.
+  exact (conj (nm_repr_div_rem_correct w Hw ms Hms T HT a b Ha Hb) (conj (nm_repr_rem_correct w Hw ms Hms T HT a b Ha Hb)
+        (conj (nm_const_div_rem_correct w Hw ms Hms T HT a b Ha Hb) (nm_const_rem_correct w Hw ms Hms T HT a b Ha Hb)))).
+Qed.
+Print Assumptions C02_nm_repr_div_rem.
+
+(** ** nothing assumed: mul::add_signed_mul is C01's as-is model (schoolbook / Karatsuba / Toom-3 behind the
+       regenerated thresholds), word sizes w >= 8 *)
+Theorem C02_c01_mul_sub_contract : forall w, 8 <= w -> contract_mul_sub w (c01_mul_sub w).
+Proof. exact c01_mul_sub_contract. Qed.
+Print Assumptions C02_c01_mul_sub_contract.
+
+(** the kernel behind the THRESHOLD_SIMPLE switch (schoolbook / Burnikel-Ziegler), fuel = len lhs + 1 *)
+Theorem C02_kernel_unconditional : forall w, 8 <= w -> forall lhs rhs, kernel_pre w lhs rhs ->
+  exists res c, s_div_rem_in_place w (S (length lhs)) lhs rhs = Ok (res, c) /\ kernel_post w lhs rhs res c.
+Proof. exact s_div_rem_in_place_correct. Qed.
+Print Assumptions C02_kernel_unconditional.
+
+(** DivRem / Div / Rem of two magnitudes and division through a prepared ConstDivisor, every kernel transcribed *)
+Theorem C02_division_unconditional : forall w, 8 <= w -> forall a b, 0 <= a -> 0 < b ->
+  s_repr_div_rem w a b = Ok (a / b, a mod b) /\ s_repr_div w a b = Ok (a / b) /\ s_repr_rem w a b = Ok (a mod b) /\
+  s_const_div_rem w a b = s_repr_div_rem w a b /\ s_const_rem w a b = s_repr_rem w a b.
+Proof. exact s_division_unconditional. Qed.
+Print Assumptions C02_division_unconditional.
+
+(** ** primitive-typed operands (u8 .. i128 on either side: impl_div_primitive_with_ubig! / _with_ibig!) and
+       is_multiple_of_const; as-is models of the macro bodies in Int/DivPrim.v over the regenerated sign tables *)
+From Dashu Require Import Int.DivPrim Int.DivPrimProofs.
+
+(** every primitive form = truncating division followed by the representability test of the fixed output type *)
+Theorem C02_prim_forms : forall k t pt x p, prim_pairing t pt = true -> in_big t x = true -> in_prim pt p = true ->
+  prim_form_asis k t pt x p = prim_form_spec k pt x p.
+Proof. exact prim_form_correct. Qed.
+Print Assumptions C02_prim_forms.
+
+(** signed primitives: `big / p`, `big % p`, div_rem always return Z.quot / Z.rem *)
+Theorem C02_prim_signed : forall t n x p, prim_pairing t (iprim n) = true -> in_big t x = true ->
+  in_prim (iprim n) p = true -> p <> 0 ->
+  prim_form_asis PRem t (iprim n) x p = Ok [Z.rem x p] /\
+  prim_form_asis PDivRem t (iprim n) x p = Ok [Z.quot x p; Z.rem x p] /\
+  prim_form_asis PDiv t (iprim n) x p = Ok [Z.quot x p].
+Proof. exact prim_rem_signed_exact. Qed.
+Print Assumptions C02_prim_signed.
+
+(** unsigned primitives: the remainder forms return Z.rem exactly when it is not negative, otherwise they are the
+    undocumented unwrap panic (the exact class; C15 F02 prim_result_unrepresentable) *)
+Theorem C02_prim_unsigned : forall t n x p, prim_pairing t (uprim n) = true -> in_big t x = true ->
+  in_prim (uprim n) p = true -> p <> 0 ->
+  prim_form_asis PDiv t (uprim n) x p = Ok [Z.quot x p] /\
+  ((0 <= x \/ Z.rem x p = 0) ->
+     prim_form_asis PRem t (uprim n) x p = Ok [Z.rem x p] /\
+     prim_form_asis PDivRem t (uprim n) x p = Ok [Z.quot x p; Z.rem x p]) /\
+  (x < 0 /\ Z.rem x p <> 0 ->
+     prim_form_asis PRem t (uprim n) x p = Panic Undocumented /\
+     prim_form_asis PDivRem t (uprim n) x p = Panic Undocumented).
+Proof. exact prim_rem_unsigned_exact. Qed.
+Print Assumptions C02_prim_unsigned.
+
+(** primitive / big -> primitive: the quotient or the unwrap panic; for signed primitives the panic is exactly
+    iN::MIN / -1, for unsigned ones exactly a negative quotient *)
+Theorem C02_prim_rdiv : forall t pt p x, prim_pairing t pt = true -> in_big t x = true -> in_prim pt p = true -> x <> 0 ->
+  prim_form_asis PRDiv t pt x p = if in_prim pt (Z.quot p x) then Ok [Z.quot p x] else Panic Undocumented.
+Proof. exact prim_rdiv_exact. Qed.
+Print Assumptions C02_prim_rdiv.
+
+Theorem C02_prim_rdiv_class : forall n p x, 0 < n -> x <> 0 ->
+  (in_prim (iprim n) p = true -> (in_prim (iprim n) (Z.quot p x) = true <-> ~ (p = - 2 ^ (n - 1) /\ x = -1))) /\
+  (in_prim (uprim n) p = true -> (in_prim (uprim n) (Z.quot p x) = true <-> 0 <= Z.quot p x)).
+Proof.
+  intros n p x Hn Hx. split; intros Hp.
+  - exact (rdiv_fits_signed_iff n p x Hn Hp Hx).
+  - exact (rdiv_fits_unsigned_iff n p x Hp Hx).
+Qed.
+Print Assumptions C02_prim_rdiv_class.
+
+(** is_multiple_of_const (word / double-word divisor, rem_by_word / rem_by_dword with num-modular transcribed):
+    true exactly when the remainder is zero, every word size *)
+Theorem C02_is_multiple_of_const : forall w, 0 < w -> forall a d, 0 < d < B w * B w ->
+  is_multiple_of_const_asis w (nm1by1 w) (nm2by1 w) (nm2by2 w) (nm3by2 w) (nm4by2 w) (Z.abs a) d = Ok (Z.rem a d =? 0) /\
+  is_multiple_of_spec a d = Ok (Z.rem a d =? 0).
+Proof. exact is_multiple_of_const_unconditional. Qed.
+Print Assumptions C02_is_multiple_of_const.
+
